@@ -622,6 +622,38 @@ impl Error {
     //@end
 }
 
+// ---- Error::new (any report size) ---------------------------------------------------------------------
+/// big-endian octets of a u32 (std: u32::to_be_bytes; R12 environment function with the real std body - the
+/// array length in std's signature is an unevaluated constant that assume_specification cannot match)
+#[verifier::external_body]
+pub fn be_bytes_u32(x: u32) -> (r: [u8; 4])
+    ensures r@.len() == 4, be32(r@) == x as int,
+{ x.to_be_bytes() }
+impl Error {
+    /// the octets are header ++ len(pdu) ++ pdu ++ len(text) ++ text with the header announcing exactly
+    /// the number of octets (`write` sends `octets` unchanged), for reports of any size
+    //@fn src/rtr/pdu.rs :: impl Error :: new
+    //@sigsub R12 "pdu: impl AsRef<[u8]>" "pdu: &[u8]"
+    //@sigsub R12 "text: impl AsRef<[u8]>" "text: &[u8]"
+    //@sub R12 "let pdu = pdu.as_ref();" "let pdu = pdu;"
+    //@sub R12 "let text = text.as_ref();" "let text = text;"
+    //@sub R12 "u32::try_from(pdu.len()).unwrap().to_be_bytes().as_ref()" "be_bytes_u32(u32::try_from(pdu.len()).unwrap()).as_slice()"
+    //@sub R12 "u32::try_from(text.len()).unwrap().to_be_bytes().as_ref()" "be_bytes_u32(u32::try_from(text.len()).unwrap()).as_slice()"
+    //@spec
+        requires 16 + pdu@.len() + text@.len() <= u32::MAX,
+        ensures
+            r.octets@.len() == 16 + pdu@.len() + text@.len(),
+            r.octets@[0] == version, r.octets@[1] == 10,
+            be16(r.octets@.subrange(2, 4)) == error_code as int,
+            be32(r.octets@.subrange(4, 8)) == r.octets@.len(),
+            be32(r.octets@.subrange(8, 12)) == pdu@.len(),
+            r.octets@.subrange(12, 12 + pdu@.len() as int) == pdu@,
+            be32(r.octets@.subrange(12 + pdu@.len() as int, 16 + pdu@.len() as int)) == text@.len(),
+            r.octets@.subrange(16 + pdu@.len() as int, 16 + pdu@.len() as int + text@.len() as int) == text@,
+    //@/spec
+    //@end
+}
+
 // =====================================================================================================
 // write side: constructors of the variable-length PDUs and the writers
 // =====================================================================================================
